@@ -12,6 +12,10 @@ ASSUME PrintT(ToJson([table |-> "unions", rows |-> UnionTable]))
 ASSUME PrintT(ToJson([table |-> "bools", rows |-> BoolTable]))
 ASSUME PrintT(ToJson([table |-> "dates10", rows |-> DateTable("1.0")]))
 ASSUME PrintT(ToJson([table |-> "dates11", rows |-> DateTable("1.1")]))
+ASSUME PrintT(ToJson([table |-> "strfacets", rows |-> StrTable]))
+ASSUME PrintT(ToJson([table |-> "digits", rows |-> DigTable]))
+ASSUME PrintT(ToJson([table |-> "patterns", rows |-> PatTable]))
+ASSUME PrintT(ToJson([table |-> "timezones", rows |-> TzTable]))
 ASSUME PrintT(ToJson([table |-> "times", rows |-> TimeTable]))
 ASSUME PrintT(ToJson([table |-> "durations", rows |-> DurationTable]))
 ASSUME PrintT(ToJson([table |-> "hex", rows |-> HexTable]))
